@@ -432,7 +432,178 @@ def rndTemplates (r : Rng) (i : Nat) : List FTemplate × Rng :=
 
 def setNth {α : Type} (l : List α) (i : Nat) (x : α) : List α := l.take i ++ [x] ++ l.drop (i + 1)
 
+/-! ### minimal-layout headers
+
+ The header of N pairs packed as tightly as the syntax allows: no white space before the first identifier, every
+ separator exactly ONE white-space byte, identifiers and offsets with the fewest digits, nothing between the last
+ offset digit and the first object (/First = length of the header).  With single-digit identifiers and offsets that is
+ /First = 4N - 1 (N pairs need only 2N - 1 separators); offsets stay single digits only when the members are spelled in
+ 1..4 bytes and touch each other where the syntax allows it (`[]()`, `<<>>/A`, `1[]`).  Class words:
+
+   tight      /First = 4N - 1                       (rt)
+   tight2     minimal layout, but some identifier or offset needs two digits   (rt)
+   tightpad   the same stream with ONE white-space byte between the header and the first object, /First one more (rt)
+   tightcut   /First one less than the header: the last offset loses its last digit - with a single-digit last offset
+              the header holds fewer than /N pairs and the stream must be rejected (rej); with a two-digit one the
+              case is correspondence only (mut)
+   tightshift /First one more than the header over the SAME data: every member is read one byte late (mut)
+   tight-flate / tight-chain<k>   the tight stream behind the filter options of the generator (rt)
+-/
+
+/-- the shortest spellings of each syntactic class (1..4 bytes) -/
+def tightPool : List (Bytes × Obj) :=
+  [(bs "1", .int 1), (bs "[]", .arr []), (bs "()", .str []), (bs "<<>>", .dict []), (bs "/A", .name (bs "A")),
+   (bs "null", .null), (bs "7", .int 7), (bs "<>", .str []), (bs "true", .bool true)]
+
+def isDelimOrWs (b : UInt8) : Bool :=
+  ([32, 10, 13, 9, 0, 12, 40, 41, 60, 62, 91, 93, 123, 125, 47, 37] : List UInt8).contains b
+
+/-- two spellings may not touch when the first ends and the second starts with a regular character -/
+def needSep (a b : Bytes) : Bool :=
+  match a.getLast?, b.head? with
+  | some x, some y => !isDelimOrWs x && !isDelimOrWs y
+  | _, _ => false
+
+/-- sequence number `idx` over `pool`, `n` members (mixed radix) -/
+def seqOf (pool : List (Bytes × Obj)) (n idx : Nat) : List (Bytes × Obj) :=
+  ((List.range n).foldl (fun (acc : List (Bytes × Obj) × Nat) _ =>
+    (acc.1 ++ [pool[acc.2 % pool.length]?.getD (bs "1", .int 1)], acc.2 / pool.length)) ([], idx)).1
+
+/-- `n` distinct identifiers with the fewest digits: a rotation of 1..9 (reversed every other time), then 10, 11, .. -/
+def tightIds (n sel : Nat) : List Nat :=
+  let base := (List.range 9).map fun k => (k + sel) % 9 + 1
+  let base := if sel / 9 % 2 == 1 then base.reverse else base
+  (base ++ (List.range (n - 9)).map (· + 10)).take n
+
+structure Tight where
+  b : Built
+  ps : List (Nat × Nat)
+  hdr : Bytes
+  content : Bytes
+
+/-- members laid out touching each other where the syntax allows it (`sepAlways`: one white-space byte between any two),
+    under the minimal header; `wsSel` < 6: every separator is that white-space byte, else they vary with the position -/
+def mkTight (ms : List (Bytes × Obj)) (ids : List Nat) (sepAlways : Bool) (wsSel : Nat) : Tight :=
+  let wsAt (j : Nat) : UInt8 := if wsSel < 6 then wsBytes[wsSel]?.getD 32 else wsBytes[(j + wsSel) % 6]?.getD 32
+  let es := ((List.zip ms ids).foldl (fun (acc : List Entry × Option Bytes × Nat) (m, id) =>
+      let gap : Bytes := match acc.2.1 with
+        | none => []
+        | some prev => if sepAlways || needSep prev m.1 then [wsAt (acc.2.2 + 3)] else []
+      (acc.1 ++ [⟨id, gap, m.1⟩], some m.1, acc.2.2 + 1)) ([], none, 0)).1
+  let (content, ps) := layoutContent es 0
+  let lay : List (Bytes × Bytes) := (List.range ms.length).map fun k =>
+    ((if k == 0 then [] else [wsAt (2 * k - 1)]), [wsAt (2 * k)])
+  let hdr := encodeHeader (mkHeader ps lay)
+  ⟨⟨es, ms.map (fun _ => 0), ms.map (·.2), ms.foldl (fun a m => Nat.max a (depth m.2)) 1⟩, ps, hdr, content⟩
+
+/-- the case lines of one minimal-layout stream.  `nbr`: which neighbours go with it (bit 0: /First one less, bit 1: one
+    white-space byte of padding and /First one more, bit 2: /First one more over the same data); `filt`: also behind a
+    filter option (flate stored block / random chain / systematic chain / Flate + predictor, by `idx / 2 % 4`) -/
+def tightLines (seed idx : Nat) (t : Tight) (nbr : Nat) (filt : Bool) : List String :=
+  let n := t.ps.length
+  let r := Rng.mk' (seed * 1000003 + idx)
+  let trail : Bytes := match idx % 3 with | 0 => [] | 1 => [10] | _ => bs " x"
+  let content := t.content ++ trail
+  let data := t.hdr ++ content
+  let first := t.hdr.length
+  let maxd := t.b.maxd + idx % 3
+  let pre : List ObjId := if idx % 5 == 0 then [(5000 + idx % 50, 0), ((t.ps.head?.map (·.1)).getD 1, 1)] else []
+  let cls := if first + 1 == 4 * n then "tight" else "tight2"
+  let (dict, r) := dictFor r n first ""
+  let want := memberWant t.b t.ps pre 0
+  let l0 := s!"rt {cls} {maxd} 0 {predefStr pre} {hexOfBytes dict} {hexOfBytes data} = => {want}"
+  let lastOfs := (t.ps.getLast?.map (·.2)).getD 0
+  let l1 := if nbr % 2 == 1 then
+      [s!"{if lastOfs < 10 then "rej" else "mut"} tightcut {maxd} 0 {predefStr pre} {hexOfBytes (bs s!"<</Type /ObjStm /N {n} /First {first - 1}>>")} {hexOfBytes data} ="]
+    else []
+  let l2 := if nbr / 2 % 2 == 1 then
+      let w := wsBytes[idx % 6]?.getD 32
+      [s!"rt tightpad {maxd} 0 {predefStr pre} {hexOfBytes (bs s!"<</Type /ObjStm /N {n} /First {first + 1}>>")} {hexOfBytes (t.hdr ++ [w] ++ content)} = => {want}"]
+    else []
+  let l3 := if nbr / 4 % 2 == 1 then
+      [s!"mut tightshift {maxd} 0 {predefStr pre} {hexOfBytes (bs s!"<</N {n} /Type /ObjStm /First {first + 1}>>")} {hexOfBytes data} ="]
+    else []
+  let l4 := if !filt then [] else
+    let junk : Bytes := match idx / 4 % 3 with | 0 => [] | 1 => bs "JUNK" | _ => bs "<</N 1>>stream\n"
+    let wantJ := memberWant t.b t.ps pre junk.length
+    match idx / 2 % 4 with
+    | 0 =>
+      let filtT := match idx / 12 % 3 with | 0 => " /Filter /FlateDecode" | 1 => " /Filter [/FlateDecode]" | _ => " /Filter [/FlateDecode] /DecodeParms [null]"
+      let (dictF, _) := dictFor r n first filtT
+      [s!"rt tight-flate {maxd} {junk.length} {predefStr pre} {hexOfBytes dictF} {hexOfBytes (junk ++ zlibStored data)} {hexOfBytes data} => {wantJ}"]
+    | 3 =>
+      let pr := ([2, 10, 11, 12, 13, 14] : List Nat)[idx / 4 % 6]?.getD 12
+      let wsel := ([1, 4, 2, 1, 0, 3] : List Nat)[idx / 24 % 6]?.getD 1
+      let (mask, r) := r.nat 16
+      let (mode, r) := r.nat 4
+      let tp : FTemplate := ⟨⟨'F', mode, idx % 50, 0, 0⟩, some (pr, idx / 144 + idx % 7, wsel), mask⟩
+      let (enc, ls) := encodeChain 0 0 0 [tp] 1 data
+      let (dictP, _) := dictFor r n first (filterText ls idx)
+      [s!"rt tight-chain1 {maxd} {junk.length} {predefStr pre} {hexOfBytes dictP} {hexOfBytes (junk ++ enc)} {hexOfBytes data} => {wantJ}"]
+    | _ =>
+      -- 2: chain number idx / 8 of the systematic enumeration; 1: drawn by C06's randChain (+ predictor layers)
+      let (ts, r) := rndTemplates r (if idx / 2 % 4 == 2 then 2 * (idx / 8) else 2 * idx + 1)
+      let (shapeSel, r) := r.nat 6
+      let (eol, r) := r.nat 4
+      let (enc, ls) := encodeChain 0 0 0 ts 1 data
+      let (dictC, _) := dictFor r n first (filterText ls shapeSel)
+      [s!"rt tight-chain{ls.length} {maxd} {junk.length} {predefStr pre} {hexOfBytes dictC} {hexOfBytes (junk ++ enc ++ C06.eolBytes eol)} {hexOfBytes data} => {wantJ}"]
+  [l0] ++ l1 ++ l2 ++ l3 ++ l4
+
+/-- the neighbour that goes with case number `idx` when not all of them do -/
+def nbrOf (idx : Nat) : Nat := ([1, 2, 1, 2, 1, 4, 2] : List Nat)[idx % 7]?.getD 1
+
+/-- the systematic family: (N, pool, stride) - sequence number i of pool^N is taken when i = off (mod stride) -/
+def genTight (seed : Nat) (tier : String) (emit : String → IO Unit) : IO Unit := do
+  let thorough := tier == "thorough"
+  let short := tightPool.filter (·.1.length ≤ 2)
+  let plan : List (Nat × List (Bytes × Obj) × Nat) :=
+    if thorough then [(1, tightPool, 1), (2, tightPool, 1), (3, tightPool, 1), (4, tightPool, 1), (5, tightPool, 7), (5, short, 1), (6, short, 3)]
+    else [(1, tightPool, 1), (2, tightPool, 1), (3, tightPool, 1), (4, tightPool, 11), (5, short, 13), (6, short, 79)]
+  let mut idx := seed % 1009
+  for (n, pool, stride) in plan do
+    let total := pool.length ^ n
+    let off := seed % stride
+    for j in List.range ((total + stride - 1 - off) / stride) do
+      let ms := seqOf pool n (off + j * stride)
+      -- N <= 2: every white-space byte (and a mixture) as the separator, with and without a byte between the members;
+      -- larger N: the choices rotate with the case number
+      let wsSels : List Nat := if n ≤ 2 then [0, 1, 2, 3, 4, 5, 7] else [idx % 8]
+      for wsSel in wsSels do
+        idx := idx + 1
+        let t := mkTight ms (tightIds n idx) false wsSel
+        for l in tightLines seed idx t (if n ≤ 2 then 7 else if n == 3 then 3 else nbrOf idx) (n ≤ 2 || idx % 2 == 0) do emit l
+        if n ≤ 2 || idx % 4 == 1 then
+          let t' := mkTight ms (tightIds n (idx + 4)) true wsSel
+          if t'.content != t.content then
+            for l in tightLines seed (idx + 1) t' (nbrOf idx) false do emit l
+  -- N = 7 is the largest N whose offsets can all be single digits: 1-byte integers alternating with 2-byte delimited
+  -- objects (`1[]7()1<>7`, `[]1()7<>1[]`)
+  let ints : List (Bytes × Obj) := [(bs "1", .int 1), (bs "7", .int 7)]
+  let twos : List (Bytes × Obj) := [(bs "[]", .arr []), (bs "()", .str []), (bs "<>", .str []), (bs "/A", .name (bs "A"))]
+  let stride7 := if thorough then 1 else 16
+  for i in List.range (3072 / stride7) do
+    let k := i * stride7 + seed % stride7
+    idx := idx + 1
+    let intFirst := k < 1024
+    let k' := if intFirst then k else k - 1024
+    let ms := ((List.range 7).foldl (fun (acc : List (Bytes × Obj) × Nat) p =>
+      if (p % 2 == 0) == intFirst then (acc.1 ++ [ints[acc.2 % 2]?.getD (bs "1", .int 1)], acc.2 / 2)
+      else (acc.1 ++ [twos[acc.2 % 4]?.getD (bs "[]", .arr [])], acc.2 / 4)) ([], k')).1
+    for l in tightLines seed idx (mkTight ms (tightIds 7 idx) false (idx % 8)) (nbrOf idx) (idx % 2 == 0) do emit l
+  -- a few larger N: two-digit offsets (and identifiers from N = 10 on) with the fewest digits
+  let mut r := Rng.mk' (seed + 7777)
+  for n in [8, 9, 10, 11, 12, 16] do
+    for _ in List.range (if thorough then 300 else 30) do
+      idx := idx + 1
+      let (k, r1) := r.nat (short.length ^ 8)
+      let (k2, r2) := r1.nat (short.length ^ 8)
+      r := r2
+      let ms := seqOf short 8 k ++ seqOf short (n - 8) k2
+      for l in tightLines seed idx (mkTight ms (tightIds n idx) false (idx % 8)) (nbrOf idx) (idx % 2 == 0) do emit l
+
 def gen (seed n : Nat) (tier : String) (emit : String → IO Unit) : IO Unit := do
+  genTight seed tier emit
   -- exhaustive small space: contents over {1,2,blank,x} × all offset pairs
   let alphabet : List UInt8 := [49, 50, 32, 120]
   let maxLen := if tier == "thorough" then 5 else 4
@@ -688,14 +859,14 @@ def gen (seed n : Nat) (tier : String) (emit : String → IO Unit) : IO Unit := 
       let (d, dat) := withHdr ps' nobj
       emit (line "mut" "hdr" maxd pre d dat "")
 
-/-- non-trivial: at least two members, or a corruption/flate/filter-chain case; exhaustive cases count when both
+/-- non-trivial: at least two members, or a corruption/flate/filter-chain/minimal-layout case; exhaustive cases count when both
     offsets lie inside the content -/
 def nontrivial (line : String) : Bool :=
   match parseCase line with
   | none => false
   | some c =>
     match c.kind with
-    | "rt" => (c.want.splitOn "] [").length ≥ 2 || c.cls == "flate" || c.cls.startsWith "chain"
+    | "rt" => (c.want.splitOn "] [").length ≥ 2 || c.cls == "flate" || c.cls.startsWith "chain" || c.cls.startsWith "tight"
     | "ex" => match exParts c with | some (ct, a, b) => a < ct.length && b < ct.length && a != b | none => false
     | _ => c.view.length ≥ 12
 
